@@ -331,15 +331,19 @@ class CFG(object):
 
     # -- analyses ----------------------------------------------------------
     def reachable_nodes(self):
-        seen = set()
-        stack = [self.entry]
-        while stack:
-            n = stack.pop()
-            if n in seen:
-                continue
-            seen.add(n)
-            stack.extend(s for s, _ in n.succ)
-        return seen
+        """Reachable nodes, in creation (= source) order so that every
+        rule is deterministic."""
+        if getattr(self, '_live', None) is None:
+            seen = set()
+            stack = [self.entry]
+            while stack:
+                n = stack.pop()
+                if n in seen:
+                    continue
+                seen.add(n)
+                stack.extend(s for s, _ in n.succ)
+            self._live = sorted(seen, key=lambda n: n.id)
+        return self._live
 
     def dominators(self):
         if self._dom is None:
